@@ -306,6 +306,11 @@ def run_history(text, opts, d, profile="debug", keep_snaps=False, timeout=120, e
             if a.startswith("snap:") and not a.startswith("snap:ERR"):
                 snaps.append((i, a[5:], e[6:] if e.startswith("snap= ") else None))
             continue
+        if a == "badop":
+            # produced by the harness itself (unknown transaction / handle), never by the library: the history is malformed at
+            # this call (e.g. the shrinker removed the call that made the handle, or an earlier call -- already compared -- was
+            # refused); nothing of the library is being compared here
+            continue
         if a not in e.split(" || "):
             diffs.append((i, c, e, a))
         if a.startswith("err:") or a.startswith("panic:"):
@@ -644,8 +649,12 @@ def engine_corr(res, pagesize):
             lines.append("D %s %s" % ("/".join(txs[w[1]]["handles"][w[2]]) or "/", w[3])); origin.append(i)
         elif w[0] == "delb" and w[1] in txs and txs[w[1]]["w"] and a == "ok" and w[2] in txs[w[1]]["handles"]:
             lines.append("X %s %s" % ("/".join(txs[w[1]]["handles"][w[2]]) or "/", w[3])); origin.append(i)
-        elif w[0] in ("dump", "buckets") and w[1] in txs and txs[w[1]]["w"]:
+        elif w[0] in ("dump", "buckets", "getbi") and w[1] in txs and txs[w[1]]["w"]:
             break
+        elif w[0] == "getbi" and w[1] in txs:
+            t = txs[w[1]]
+            if a == "ok" and w[2] in t["handles"]:
+                t["handles"][w[4]] = t["handles"][w[2]] + [w[3]]
         elif w[0] == "commit" and w[1] in txs:
             t = txs.pop(w[1])
             if t["w"]:
